@@ -1,6 +1,8 @@
 import SSVerif.Proofs.Viterbi
 import SSVerif.Proofs.Hmm
+import SSVerif.Proofs.Hmm5
 import SSVerif.Proofs.FlatNet
+import SSVerif.Proofs.FlatNetBuild
 import SSVerif.Proofs.HistDom
 /-!
 # C02 — With pruning disabled the search returns the true Viterbi optimum
@@ -86,6 +88,17 @@ theorem C02_hmmStep_eq_ideal (tp : List Nat) (e : Nat → Int) (h : St) (H : Ste
     Inv (hmmStep tp e h) :=
   Hmm.hmmStep_eq_ideal tp e h H hI
 
+/-- **C02, 5-state HMM update.** `hmmStep5` (= `hmm_vit_eval_5st_lr`: all `k→k`, `k→k+1`, `k→k+2` transitions,
+`WORST_SCORE` clamps, and the guards that leave the exit state / state 4 / state 3 untouched while `s3` / `s2` /
+`s1` are not better than `WORST_SCORE`) coincides with the 5-state max-plus step for the new state scores and the
+exit score, and preserves the left-to-right activity invariant `Inv5`, provided matrix entries are bytes,
+emissions are negated `int16` and no state underflows in this frame. -/
+theorem C02_hmmStep5_eq_ideal (tp : List Nat) (e : Nat → Int) (h : St5) (H : StepHyp5 tp e h) (hI : Inv5 h) :
+    (hmmStep5 tp e h).rep = (hmmStepIdeal5 tp e h.rep).1 ∧
+    Hmm.rep (hmmStep5 tp e h).out = (hmmStepIdeal5 tp e h.rep).2 ∧
+    Inv5 (hmmStep5 tp e h) :=
+  Hmm.hmmStep5_eq_ideal H hI
+
 /-- a cleared HMM (`hmm_clear`), also after `hmm_enter`, satisfies the invariant -/
 theorem C02_inv_clear (score : Int) : Inv (St.clear.enter score) := by
   constructor <;> intro _ <;> rfl
@@ -113,6 +126,30 @@ theorem C02_alignment_sentence {M : Model} {L : LNet} (hL : labelsOK M L = true)
     {sc : Int} {ws : List Nat} (h : LAlignment L em T sc ws) :
     Nfa.Accepts (fsgNfa M) (ws.map (widOf M)) :=
   FlatNet.alignment_sentence hL h
+
+/-- **C02, every built network is consistent with its grammar.** For every model `M` (search FSG, dictionary,
+triphone map, penalties — any, not only dumped ones) and transition matrices, the network `FlatNet.build`
+produces passes `labelsOK` and is well-formed: no run-time check is needed for `C02_alignment_sentence` and
+`C02_driver_optimum` to apply. -/
+theorem C02_build_labelsOK (M : Model) (tmat : Nat → List Nat) (L : LNet) (insts : Array Inst)
+    (hb : build M tmat = some (L, insts)) : labelsOK M L = true ∧ L.toNet.wf L.n = true :=
+  FlatNet.build_labelsOK M tmat L insts hb
+
+/-- **C02, the optimum is over sentences of the grammar.** For the flat network of any model: every alignment's
+word arcs spell a sentence of the FSG; no alignment scores above the value the driver's DP computes; and a finite
+DP value is the score of an alignment whose words are accepted by the FSG. -/
+theorem C02_build_optimum_over_sentences (M : Model) (tmat : Nat → List Nat) (L : LNet) (insts : Array Inst)
+    (hb : build M tmat = some (L, insts)) (em : Nat → Nat → Int) (T : Nat) :
+    (∀ sc ws, LAlignment L em T sc ws → Nfa.Accepts (fsgNfa M) (ws.map (widOf M))) ∧
+    (∀ sc, Alignment L.toNet em T sc → ole (some sc) (viterbiArr L.toNet L.n em T)) ∧
+    (∀ v, viterbiArr L.toNet L.n em T = some v →
+      ∃ ws, LAlignment L em T v ws ∧ Nfa.Accepts (fsgNfa M) (ws.map (widOf M))) := by
+  obtain ⟨hl, hw⟩ := FlatNet.build_labelsOK M tmat L insts hb
+  obtain ⟨h1, h2⟩ := C02_driver_optimum L.toNet L.n em T hw
+  refine ⟨fun sc ws h => FlatNet.alignment_sentence hl h, h1, ?_⟩
+  intro v hv
+  obtain ⟨ws, hws⟩ := (FlatNet.alignment_iff_labelled L em T v).mp (h2 v hv)
+  exact ⟨ws, hws, FlatNet.alignment_sentence hl hws⟩
 
 /-- **C02, history pruning is lossless.** Inserting an entry into a score-sorted list `frame_entries[s][lc]`
 with the score / right-context-set domination rule of `fsg_history_entry_add` leaves, for **every**
@@ -171,6 +208,13 @@ example : StepHyp [3, 12, 255, 255, 255, 5, 8, 255, 255, 255, 5, 8] (fun k => -(
   s1 := Or.inr (by decide)
   s2 := Or.inr (by decide)
   skip := by decide
+
+/-- one frame of a 5-state HMM with states 0-2 active: state 3 is entered from 2 and 1, state 4 from 2 -/
+example :
+    hmmStep5 [2, 9, 14, 255, 255, 255, 255, 3, 8, 12, 255, 255, 255, 255, 4, 7, 11, 255, 255, 255, 255, 5, 6, 10,
+              255, 255, 255, 255, 6, 5] (fun k => -(10 * ((k % 5 : Nat) : Int) + 7))
+      ⟨-100, -200, -300, -536870912, -536870912, -536870912, -100⟩
+      = ⟨-109, -116, -121, -229, -338, -536870912, -109⟩ := by decide
 
 /-- domination: the new entry (score −7, contexts {2,3}) loses context 2 to the better entry and takes
 context 3 from the worse one, which disappears -/
